@@ -46,6 +46,12 @@ DEFAULTS = dict(
 def _model_values(model, z3, api):
     out = {}
     for name, kind in api.ST.vars.items():
+        if kind == "fp":
+            from . import fp as F
+
+            val = model.eval(z3.FP(name, F.F64), model_completion=True)
+            out[name] = F._fpvalue_to_float(val).hex() if z3.is_fp_value(val) else str(val)
+            continue
         v = z3.Real(name) if kind == "real" else (z3.Int(name) if kind == "int" else z3.Bool(name))
         val = model.eval(v, model_completion=True)
         if kind == "real":
@@ -98,6 +104,61 @@ def _region_term(expr, z3, api):
     for name, kind in api.ST.vars.items():
         env[name] = z3.Real(name) if kind == "real" else (z3.Int(name) if kind == "int" else z3.Bool(name))
     return eval(expr, env)  # noqa: S307 (trusted file under /verif)
+
+
+def _fp_solve(assertions, timeout_ms, stats):
+    """decide a floating-point query: cvc5 binary first (SMT-LIB written from the z3 terms), z3 as fallback.
+    returns (verdict, model {name: hex float} or None, backend)"""
+    import subprocess
+    import tempfile
+
+    import z3
+
+    from . import fp as F
+
+    sol = z3.Solver()
+    sol.add(*assertions)
+    text = sol.to_smt2()
+    text = "(set-option :produce-models true)\n(set-logic QF_FP)\n" + text.replace("(check-sat)", "(check-sat)\n(get-model)")
+    t0 = time.time()
+    verdict, model, backend = "unknown", None, "cvc5"
+    try:
+        with tempfile.NamedTemporaryFile("w", suffix=".smt2", delete=False) as f:
+            f.write(text)
+            path = f.name
+        p = subprocess.run(["cvc5", "--lang=smt2", f"--tlimit={int(timeout_ms)}", path], capture_output=True, text=True, timeout=timeout_ms / 1000 + 30)
+        os.unlink(path)
+        first = (p.stdout.strip().splitlines() or ["unknown"])[0].strip()
+        rest = "\n".join(p.stdout.strip().splitlines()[1:])
+        if first.startswith("(error") or "(error" in p.stderr or (first == "sat" and "(error" in rest):
+            first = "error"  # an error before the verdict (or while printing the model) is inconclusive
+        if first == "unsat":
+            verdict = "unsat"
+        elif first == "sat":
+            verdict = "sat"
+            model = {k: v.hex() for k, v in F.parse_cvc5_model(p.stdout).items()}
+        else:
+            verdict = "unknown"
+    except Exception:  # noqa: BLE001
+        verdict = "unknown"
+    stats["queries"] += 1
+    if verdict == "unknown":
+        backend = "z3"
+        sol.set("timeout", int(timeout_ms))
+        r = sol.check()
+        stats["queries"] += 1
+        if r == z3.unsat:
+            verdict = "unsat"
+        elif r == z3.sat:
+            verdict = "sat"
+            m = sol.model()
+            model = {}
+            for d in m.decls():
+                v = m[d]
+                if z3.is_fp_value(v):
+                    model[d.name()] = F._fpvalue_to_float(v).hex()
+    stats["solver_s"] += time.time() - t0
+    return verdict, model, backend
 
 
 def child_sym(mod, cfg, schedule, opts, findings):
@@ -153,6 +214,40 @@ def child_sym(mod, cfg, schedule, opts, findings):
         res["error"] = res["error"] or "sparsity structure depends on values"
 
     if res["status"] in ("infeasible", "skipped"):
+        res["stats"] = dict(E.stats, wall=time.time() - t0)
+        return res
+
+    if any(k_ == "fp" for k_ in api.ST.vars.values()) and res["status"] == "ok":
+        # bit-precise lemma: every query is a QF_FP problem for cvc5 (z3 as fallback)
+        v0, m0, _b = _fp_solve(pc, opts.get("vacuity_timeout_ms", 10000) * 3, E.stats)
+        res["pc_sat"] = v0
+        if v0 == "unsat":
+            res["status"] = "infeasible"
+            res["stats"] = dict(E.stats, wall=time.time() - t0)
+            return res
+        res["witness"] = m0
+        for name, cond in list(api.ST.claims):
+            entry = dict(name=name, verdict=None, trivial=False, models=[], solver_s=0.0, known=None)
+            c = z3.simplify(cond)
+            if z3.is_true(c):
+                entry.update(verdict="unsat", trivial=True)
+            else:
+                tq = time.time()
+                v1, m1, b1 = _fp_solve(pc + [z3.Not(cond)], max(opts["query_timeout_ms"], cfg.get("fp_timeout_ms", 0)), E.stats)
+                entry["solver_s"] = time.time() - tq
+                entry["verdict"] = v1
+                entry["backend"] = b1
+                if v1 == "sat" and m1 is not None:
+                    entry["models"].append({k_: v_ for k_, v_ in m1.items() if k_ in api.ST.vars})
+                    for f in findings:
+                        if not f.get("region") and fnmatch.fnmatch(name, f.get("claim", "*")) and _cfg_match(cfg, f.get("config")):
+                            entry["known"] = f["id"]
+                if len(res.get("samples", [])) < 1:
+                    sol_ = z3.Solver()
+                    sol_.add(*pc)
+                    sol_.add(z3.Not(cond))
+                    res.setdefault("samples", []).append(dict(claim=name, smt2=sol_.to_smt2()[:6000]))
+            res["claims"].append(entry)
         res["stats"] = dict(E.stats, wall=time.time() - t0)
         return res
 
